@@ -142,6 +142,12 @@ def Qty.new (env : ι → UnitInfo V) (m : Mag V) (b : BU ι) : Qty ι V :=
     ⟨m', BU.new (b.filter (fun p => (unitDims env p.1 p.2).nodim))⟩
   else ⟨m, b⟩
 
+/-- `Quantity(value, ref, abse)` with the unit given as a *quantity* `ref`:
+    `self.magnitude *= ref.magnitude; self.baseunits = ref.baseunits`, then the folding step —
+    the product of the two (possibly uncertain) numbers, in the units of `ref`. -/
+def Qty.newQ (env : ι → UnitInfo V) (m : Mag V) (ref : Qty ι V) : Qty ι V :=
+  Qty.new env (m.mul ref.mag) ref.units
+
 /-- `Quantity(number)` -/
 def Qty.ofNumber (x : V) : Qty ι V := ⟨Mag.exact x, []⟩
 
